@@ -10,7 +10,8 @@ import random
 import jobs as J
 import model as M
 from gen import H, O
-from vlib import run_driver_parallel, coq_eval, warm_config, trace_to_coq
+from vlib import run_driver_parallel, coq_eval, warm_config, trace_to_coq, unhex, cb
+import fsmodel as F
 
 TREE = [["dir", H("root"), 0o755], ["dir", H("root/d"), 0o755], ["file", H("root/d/inner"), H("i"), 0o644],
         ["file", H("root/f"), H("content"), 0o644], ["fifo", H("root/p"), 0o644], ["symlink", H("root/l"), H("f")],
@@ -91,6 +92,9 @@ def run(ck):
     nontrivial = set()
     samples = []
     cases = []
+    kcases = []
+    MKOPS, IDMAP = F.tree_to_mkops(TREE)
+    REV_ID = {v: k for k, v in IDMAP.items()}
     for deny in ((), ("openat2",)):
         tag = ",".join(deny) or "none"
         _, results, errs = run_driver_parallel(jobs + ujobs, deny=deny, tag="c09" + tag)
@@ -159,11 +163,35 @@ def run(ck):
                 nontrivial.add((kind, fl, op.get("fdnum"), len(op["history"]), tag, str(err)))
             if len(samples) < 5 and op.get("fdnum") == 0 and op["history"]:
                 samples.append(desc)
+            # tie T2': the static kernel model's answers to reopen's own calls (fstat, the procfs reads, statx by name, the
+            # follow-open) against the answers the running kernel gave -- plain files and directories, no history, openat2 present
+            if (job["api"] == "rust" and not deny and not op["history"] and "ok" in r and job["meta"]["kind"] in ("file", "dir")
+                    and not op.get("nofollow") and res.get("handle") and res.get("rootpath")):
+                cfg0 = warm_config(res["_warm"])
+                hid = REV_ID.get(H("root/" + {"l": "f"}.get(unhex(op["path"]).decode(), unhex(op["path"]).decode())))
+                if cfg0.get("procfd") is not None and hid is not None:
+                    kterm = (f"let s := build {MKOPS} in let '(bad, n) := agree_trace s {cb(res['rootpath'])} "
+                             f"[({res['handle']['fd']}%Z, {hid}%nat); ({cfg0['procfd']}%Z, PB s)] {trace_to_coq(res['trace'])} 0 0 in [Z.of_N bad; Z.of_N n]")
+                    kcases.append((len(kcases), kterm, desc, res["trace"]))
             if job["api"] == "rust" and rng.random() < (0.5 if thorough else 0.2):
                 cfg = warm_config(res["_warm"])
                 prog, enc = M.op_program(job, res, cfg, ps)
                 if prog:
                     cases.append((len(cases), f"enc_replay_diag {enc} (run_trace ({prog}) {trace_to_coq(res['trace'])} 0)", job, res, tag))
+    if not ck.proof_broken and kcases:
+        kevals, kerrs = coq_eval([(c[0], c[1]) for c in kcases], header="From PV Require Import Static.\nFrom PV Require Import FSModel.", tag="c09k")
+        if kerrs:
+            ck.violation("T2': Coq evaluation of the static-kernel cases failed", {"log": kerrs[0][-1500:]}, False)
+        for cid, term, desc, tr in kcases:
+            got = kevals.get(cid)
+            if got is None or len(got) != 2:
+                continue
+            stats["static_traces"] = stats.get("static_traces", 0) + 1
+            stats["static_calls"] = stats.get("static_calls", 0) + got[1]
+            if got[0] != 0:
+                evs = [e for e in tr if e["c"] != "fcntl" or e.get("cmd") != 1]
+                ck.violation("T2': the static kernel model disagrees with the answer the running kernel gave to a call of reopen",
+                             dict(desc, call_index=got[0] - 1, around=evs[max(0, got[0] - 3):got[0] + 1]), False)
     if not ck.proof_broken:
         evals, cerrs = coq_eval([(c[0], c[1]) for c in cases], header="From PV Require Import Replay.", tag="c09")
         if cerrs:
@@ -194,6 +222,7 @@ def run(ck):
         "other_errors_compared_with_kernel": stats["other_err"],
         "unshared_fd_table_runs": stats.get("unshared", 0),
         "by_inode_kind": stats["by_kind"], "by_descriptor_number": stats["by_fd"],
+        "static_kernel_traces_validated": stats.get("static_traces", 0), "static_kernel_calls_compared": stats.get("static_calls", 0),
         "traces_validated_against_impl": stats["t1_ok"], "t1_mismatches": stats["t1_bad"],
         "disagreements_checked": stats["t1_bad"],
     }
